@@ -24,7 +24,8 @@ META = {
             "recipes are de-duplicated through a set and parts are stored under the hash of their header, so a flag left out of "
             "equality/hash lets the segment of a target on a matching scale be answered by the cliff part another target needs. (5) every "
             "coupling a segment asks for (compute_a, compute_aem_list; all schemes, threshold or not, QED or not) is requested in the "
-            "segment's own flavour number - the coupling object's default switches exactly on a matching scale.",
+            "segment's own flavour number - the coupling object's default switches exactly on a matching scale."
+            " The identity of recipes is also evaluated: _create on a target on a matching scale and one beyond it keeps the shared segment twice (final / cliff) under different file names.",
     "note": "Necessary conditions: the O(epsilon) bound on numbers needs execution and is not decided.",
     "technique": "exhaustive partial evaluation over orderings (finite) + truth tables + dataclass identity rule + partial evaluation of the coupling requests with a recording coupling object",
     "engine": "sa",
